@@ -22,6 +22,13 @@
 //	    one WithRetransmissionSupport handler: message a0, then n further distinct messages,
 //	    then a0 again (a late retransmission after a long history). obs: first=<delegate calls
 //	    for a0> total=<delegate calls>
+//	pfail <mask>
+//	    one libp2p channel whose publisher fails transiently on the FIRST publish of the Sends
+//	    marked 1 in <mask> (a string of 0/1, one sequential Send per character, Send context
+//	    alive), then two retransmission ticks; a second channel carries a raw tap (the wire) and
+//	    one real Recv (handler loop + duplicate filter). obs: sends errs fresh=<every distinct
+//	    body on the wire has its own sequence number> wire=<distinct bodies on the wire>
+//	    delivered=<distinct bodies delivered> dup=<handler calls beyond the distinct bodies>
 //	seq <local|libp2p> <G> <M>
 //	    G goroutines call nextSeqno M times each. obs: n=<count> distinct=<bool> min max mono=<bool>
 package main
@@ -80,6 +87,15 @@ func gen(r *hx.Rng, n int, tier string) []string {
 			}
 			ops = append(ops, fmt.Sprintf("filter %d %s", g, strings.Join(ids, ",")))
 		case 2:
+			if r.Chance(1, 3) {
+				k := r.Range(1, 8)
+				mask := ""
+				for j := 0; j < k; j++ {
+					mask += hx.Pick(r, []string{"0", "0", "1"})
+				}
+				ops = append(ops, "pfail "+mask)
+				continue
+			}
 			if r.Chance(1, 3) {
 				ops = append(ops, fmt.Sprintf("flood %d", hx.Pick(r, []int{0, 1, 100, 2047, 2048, 4096, 8191, 8192, 8193, 20000, 30000})+r.Intn(3)))
 				continue
@@ -367,6 +383,153 @@ func newBackend(kind string, ticker *retransmission.Ticker) (*backend, error) {
 		ch.SetUnmarshaler(func() net.TaggedUnmarshaler { return &testMsg{} })
 	}
 	return be, nil
+}
+
+// ---- pfail ----------------------------------------------------------------------
+
+func execPfail(f []string) (string, string) {
+	mask := f[1]
+	if len(mask) < 1 || len(mask) > 16 || strings.Trim(mask, "01") != "" {
+		return "bad-op", "bad"
+	}
+	ticks := make(chan uint64)
+	ticker := retransmission.NewTicker(ticks)
+	var chans [2]net.BroadcastChannel
+	var failNext int32
+	for i := range chans {
+		i := i
+		priv, _, err := operator.GenerateKeyPair(libp2p.DefaultCurve)
+		if err != nil {
+			return "PANIC backend " + err.Error(), "bad"
+		}
+		ch, err := libp2p.VerifC16NewChannel("verif-c16-pfail", priv, ticker, func(data []byte) error {
+			if i == 0 && atomic.CompareAndSwapInt32(&failNext, 1, 0) {
+				return fmt.Errorf("transient publish failure")
+			}
+			return libp2p.VerifC16Inject(chans[i], chans[1], data)
+		})
+		if err != nil {
+			return "PANIC backend " + err.Error(), "bad"
+		}
+		ch.SetUnmarshaler(func() net.TaggedUnmarshaler { return &testMsg{} })
+		chans[i] = ch
+	}
+	a, t := chans[0], chans[1]
+	tap := libp2p.VerifC16Tap(t, 1<<12)
+	sendCtx, sendCancel := context.WithCancel(context.Background())
+	defer sendCancel()
+	sentinel := &counting{}
+	retransmission.ScheduleRetransmissions(sendCtx, logger, ticker, func() error { return nil }, sentinel)
+	waitFor(func() bool { return retransmission.VerifC17HandlerCount(ticker) == 1 })
+	var mu sync.Mutex
+	wire := map[string]map[uint64]bool{} // body -> sequence numbers it was seen with
+	seqBodies := map[uint64]map[string]bool{}
+	var tapCount int64
+	tapDone := make(chan struct{})
+	defer close(tapDone)
+	go func() {
+		for {
+			select {
+			case m := <-tap:
+				body := ""
+				if tm, ok := m.Payload().(*testMsg); ok {
+					body = tm.body
+				}
+				mu.Lock()
+				if wire[body] == nil {
+					wire[body] = map[uint64]bool{}
+				}
+				wire[body][m.Seqno()] = true
+				if seqBodies[m.Seqno()] == nil {
+					seqBodies[m.Seqno()] = map[string]bool{}
+				}
+				seqBodies[m.Seqno()][body] = true
+				mu.Unlock()
+				atomic.AddInt64(&tapCount, 1)
+			case <-tapDone:
+				return
+			}
+		}
+	}()
+	recvCtx, recvCancel := context.WithCancel(context.Background())
+	defer recvCancel()
+	delivered := map[string]int{}
+	var calls int64
+	t.Recv(recvCtx, func(m net.Message) {
+		body := ""
+		if tm, ok := m.Payload().(*testMsg); ok {
+			body = tm.body
+		}
+		mu.Lock()
+		delivered[body]++
+		mu.Unlock()
+		atomic.AddInt64(&calls, 1)
+	})
+	n, errs := len(mask), 0
+	expected := int64(0)
+	for i, c := range mask {
+		if c == '1' {
+			atomic.StoreInt32(&failNext, 1)
+		} else {
+			expected++
+		}
+		if err := a.Send(sendCtx, &testMsg{fmt.Sprintf("p%d", i)}); err != nil {
+			errs++
+		}
+	}
+	stall := ""
+	for tickNo := uint64(1); tickNo <= 2 && stall == ""; tickNo++ {
+		if !waitFor(func() bool { return retransmission.VerifC17HandlerCount(ticker) == n+1 }) {
+			stall = "schedule"
+			break
+		}
+		ticks <- tickNo
+		if !waitFor(func() bool { return atomic.LoadInt64(&sentinel.n) == int64(tickNo) }) {
+			stall = "sentinel"
+			break
+		}
+		expected += int64(n)
+		if !waitFor(func() bool { return atomic.LoadInt64(&tapCount) >= expected }) {
+			stall = "tap"
+		}
+	}
+	// every distinct sequence number on the wire passes the duplicate filter exactly once
+	waitFor(func() bool {
+		mu.Lock()
+		defer mu.Unlock()
+		return atomic.LoadInt64(&calls) >= int64(len(seqBodies))
+	})
+	sendCancel()
+	close(ticks)
+	mu.Lock()
+	defer mu.Unlock()
+	fresh := true
+	for _, seqs := range wire {
+		if len(seqs) != 1 {
+			fresh = false
+		}
+	}
+	for _, bodies := range seqBodies {
+		if len(bodies) != 1 {
+			fresh = false
+		}
+	}
+	dup := 0
+	for _, k := range delivered {
+		dup += k - 1
+	}
+	obs := fmt.Sprintf("sends=%d errs=%d fresh=%v wire=%d delivered=%d dup=%d", n, errs, fresh, len(wire), len(delivered), dup)
+	if stall != "" {
+		obs += " stall:" + stall
+	}
+	tag := "pfail"
+	if errs > 0 {
+		tag += "+publish-error"
+	}
+	if errs > 0 && strings.Contains(mask, "10") {
+		tag += "+send-after-failed-publish"
+	}
+	return obs, tag
 }
 
 // ---- seq ------------------------------------------------------------------------
@@ -737,6 +900,8 @@ func exec(op string) (string, string) {
 		return execFilter(f)
 	case len(f) == 4 && f[0] == "seq":
 		return execSeq(f)
+	case len(f) == 2 && f[0] == "pfail":
+		return execPfail(f)
 	case len(f) == 4 && f[0] == "chan":
 		return execChan(f)
 	}
